@@ -155,6 +155,20 @@ impl RuleTrait for PairRule {
     }
 }
 
+/// rule F: the amount of a quantity of the user family t1, plus 500
+struct UnitRule;
+impl RuleTrait for UnitRule {
+    fn name(&self) -> String {
+        "F".to_string()
+    }
+    fn call(&self, _: &SmartCalcConfig, fields: &BTreeMap<String, TokenType>) -> Option<TokenType> {
+        match fields.get("q") {
+            Some(TokenType::DynamicType(n, _)) => Some(TokenType::Number(n + 500.0, NumberType::Decimal)),
+            _ => None,
+        }
+    }
+}
+
 struct Coin;
 impl RuleTrait for Coin {
     fn name(&self) -> String {
@@ -189,6 +203,8 @@ fn rule(id: char) -> (Vec<String>, Rc<dyn RuleTrait>) {
         'D' => (vec!["dozen".into()], Rc::new(ConstRule)),
         // literal words that are operator aliases of the language ('times', 'sum'): a pattern is read like a line
         'T' => (vec!["{NUMBER:n} times {NUMBER:m}".into(), "sum {NUMBER:n} {NUMBER:m}".into()], Rc::new(PairRule)),
+        // a typed unit field that names the user family t1 (the family may be added later)
+        'F' => (vec!["deposit {DYNAMIC_TYPE:q:t1}".into()], Rc::new(UnitRule)),
         // an empty pattern text next to a usable one: add_rule takes any list of texts
         'E' => (vec!["".into(), "qux {NUMBER:n}".into()], Rc::new(NumRule { name: "E", add: 400.0, decline: None })),
         // same name as A, other pattern (with a capital letter) and result
@@ -203,6 +219,7 @@ fn rule_name(id: char) -> &'static str {
         'T' => "T",
         'D' => "D",
         'E' => "E",
+        'F' => "F",
         _ => "C",
     }
 }
@@ -388,7 +405,7 @@ impl Model {
 
 /// "2 dm to cm" comes first: it has the same (source index, target index, amount) as
 /// "2 athree to atwo" and "2 bthree to btwo" in the two user families
-const PROBES_EN: [&str; 37] = ["2 dm to cm", "foo 5", "foo 7", "bar 5", "baz 5", "FOO 5", "Bar 5", "BAZ 5", "foo 5 + 1", "foo 7 + bar 1", "3 btc", "3 pcs btc", "3 pcs btc + 2 btc", "3 xyz", "3 btc to try", "10 usd to try", "1 hour 30 minutes", "10% of 200", "2 aone to atwo", "20 aone to athree", "0,000000003 aone to athree", "3 athree to aone", "1 atwo to aone", "2 athree to atwo", "5 kb to byte", "24 btwo to bfour", "1 bfour to btwo", "8 btwo to bthree", "2 bthree to btwo", "4 times 5", "sum 7 8", "dozen", "dozen dozen", "dozen + dozen + 1", "dozen usd to try", "n = 20\nn aone to athree", "n = 24\nn btwo to bfour"];
+const PROBES_EN: [&str; 38] = ["2 dm to cm", "deposit 3 aone", "foo 5", "foo 7", "bar 5", "baz 5", "FOO 5", "Bar 5", "BAZ 5", "foo 5 + 1", "foo 7 + bar 1", "3 btc", "3 pcs btc", "3 pcs btc + 2 btc", "3 xyz", "3 btc to try", "10 usd to try", "1 hour 30 minutes", "10% of 200", "2 aone to atwo", "20 aone to athree", "0,000000003 aone to athree", "3 athree to aone", "1 atwo to aone", "2 athree to atwo", "5 kb to byte", "24 btwo to bfour", "1 bfour to btwo", "8 btwo to bthree", "2 bthree to btwo", "4 times 5", "sum 7 8", "dozen", "dozen dozen", "dozen + dozen + 1", "dozen usd to try", "n = 20\nn aone to athree", "n = 24\nn btwo to bfour"];
 const PROBES_TR: [&str; 4] = ["foo 5", "foo 7", "bar 5", "2 gün"];
 
 fn probe_full(calc: &SmartCalc) -> Vec<(String, Run)> {
@@ -498,6 +515,20 @@ impl Prop for C18 {
                     _ => (format!("n = {}\nn {} to {}", nt, names[i], names[j]), n * factor, j),
                 };
                 Some(Case { ops: Vec::new(), pooled: false, bfs: None, full_probe: false, restart_probe: None, zero_line: Some((line, want, idx)) })
+            },
+        ));
+        f.push(Family::new(
+            "typed-unit-field-rules",
+            Mode::Full,
+            "every sequence of 1..=4 operations over [add rule F ('deposit {DYNAMIC_TYPE:q:t1}', a typed unit field naming the user family), add family t1, add item 1 (aone), delete F]: whenever F survives and t1 has the unit, 'deposit 3 aone' evaluates to the token F returns - whether the rule or the family was registered first",
+            move |ch| {
+                let alphabet = [Op::AddRule("en".into(), 'F'), Op::AddType("t1".into()), Op::AddItem(1), Op::DelRule("en".into(), "F".into())];
+                let len = 1 + ch.choose(4);
+                let mut ops = Vec::new();
+                for _ in 0..len {
+                    ops.push(ch.pick(&alphabet).clone());
+                }
+                Some(Case { ops, pooled: false, bfs: None, full_probe: false, restart_probe: None, zero_line: None })
             },
         ));
         f.push(Family::new(
@@ -864,6 +895,16 @@ impl C18 {
                     }
                 }
             }
+            if lang == "en" && line == "deposit 3 aone" && m.rules.iter().any(|(l, id)| l == "en" && *id == 'F') && m.convert(1.0, 1, 1).is_some() {
+                match r.single() {
+                    Some(Slot::Ok { val: Val::Number(x, Base::Dec), .. }) if *x == 503.0 => {}
+                    _ => {
+                        v.expected = "deposit 3 aone -> Number(503)".into();
+                        v.violation = Some("probe \"deposit 3 aone\": the rule with a typed unit field survives and the family has the unit, but the line does not evaluate to the token the rule returns (the order in which rule and family were registered does not matter)".into());
+                        return v;
+                    }
+                }
+            }
             let coin_want = match line {
                 "3 btc" | "3 pcs btc" => Some(3000.0),
                 "3 pcs btc + 2 btc" => Some(5000.0),
@@ -951,6 +992,8 @@ impl C18 {
                             'C' => low.contains("btc"),
                             'T' => low.contains("times") || low.contains("sum"),
                             'D' => low.contains("dozen"),
+                            'F' => low.contains("deposit"),
+                            'E' => low.contains("qux"),
                             _ => low.contains("baz"),
                         }
                 });
